@@ -198,6 +198,11 @@ def finalize_shard(ck):
 
 
 def finalize(ck):
+    if ck.tier == "thorough":
+        # the repository's own tests as an additional monitored workload (DESIGN section 4)
+        from vf import pytest_monitors
+
+        pytest_monitors.run_repo_tests_under_monitors(ck, PID)
     if ck.monitors.get("contract_evaluations.z_factor_DAK", 0) == 0:
         ck.inconclusive_because("the postcondition on z_factor_DAK never fired")
     if ck.monitors.get("hall_yarbrough_calls", 0) and ck.monitors.get("hall_yarbrough_newton_iterations", 0) == 0:
